@@ -527,6 +527,23 @@ func genC02(r *Rng, tier string, emit func(Case)) {
 			bs[r.Intn(len(bs))] = 'g'
 			e("dec", "pubkeynothex", itoa(ni), hx(bs))
 		}
+		// byte sweep: one character of an accepted string replaced by EVERY other byte value (catches any
+		// byte-level confusion in case folding / charset lookup: control bytes, high bit, '@', DEL, ...)
+		if i%40 == 0 {
+			forms := []string{s, pre + ":" + s, ls, hxs}
+			f := forms[r.Intn(len(forms))]
+			for rep := 0; rep < 2; rep++ {
+				k := r.Intn(len(f))
+				for b := 0; b < 256; b++ {
+					if byte(b) == f[k] {
+						continue
+					}
+					m := []byte(f)
+					m[k] = byte(b)
+					e("dec", "bytesweep", itoa(ni), hx(m))
+				}
+			}
+		}
 		// raw malformed
 		raw := r.Bytes(r.Intn(80))
 		if r.Bool() {
